@@ -207,8 +207,19 @@ Definition end_ok (ms : list mstep) : bool :=
   | None => true
   end.
 
+(** one shared renewal that completes: in the serve-current scenario (cached certificate due,
+    unexpired, unrevoked, bundle in storage), when every goroutine has finished, nothing was denied,
+    failed or cancelled by the harness, and a handshake for the name has arrived, then the issuer has
+    delivered: the background renewal is not tied to the handshake that started it (whose context
+    is cancelled as soon as it returns) *)
+Definition delivered_ok (sc : scen) (ms : list mstep) : bool :=
+  negb (sc_serve_current sc) ||
+  existsb (fun m => label_is_bad (m_label m)) ms ||
+  negb (existsb (fun m => match m_label m with MArrive _ n => Nat.eqb n (sc_name sc) | _ => false end) ms) ||
+  existsb (fun m => match m_label m with MRelease _ (AIssue OOk) => true | _ => false end) ms.
+
 Definition spec_ok (sc : scen) (names : list name) (complete : bool) (ms : list mstep) : bool :=
-  run_ok sc names false [] [] [] [] ms && (negb complete || end_ok ms).
+  run_ok sc names false [] [] [] [] ms && (negb complete || (end_ok ms && delivered_ok sc ms)).
 
 (** ** wire decoding *)
 Definition get_cls : dec cls :=
